@@ -20,6 +20,18 @@ pub fn handle(op: &str, a: &[&str]) -> Option<String> {
         }
         ("u.sub_refval", [x, y]) => ok_u(&(&parse_u(x)? - parse_u(y)?)),
         ("u.checked_sub", [x, y]) => opt_u(&parse_u(x)?.checked_sub(&parse_u(y)?)),
+        ("u.sub_from_u32", [s, y]) => ok_u(&(s.parse::<u32>().ok()? - parse_u(y)?)),
+        ("u.sub_from_u64", [s, y]) => {
+            let sc = s.parse::<u64>().ok()?;
+            let by_val = std::panic::catch_unwind(|| sc - parse_u(y).unwrap());
+            let by_ref = std::panic::catch_unwind(|| sc - &parse_u(y).unwrap());
+            match (by_val, by_ref) {
+                (Ok(a), Ok(b)) if a == b => ok_u(&a),
+                (Err(e), Err(_)) => std::panic::resume_unwind(e),
+                _ => "panic internal:scalar-left-forms-disagree".to_string(),
+            }
+        }
+        ("u.sub_from_u128", [s, y]) => ok_u(&(s.parse::<u128>().ok()? - parse_u(y)?)),
         ("i.add", [x, y]) => ok_i(&(&parse_i(x)? + &parse_i(y)?)),
         ("i.add_assign", [x, y]) => {
             let mut v = parse_i(x)?;
